@@ -977,7 +977,7 @@ struct Dumper {
         BO.AddImplicitDtors = false;
         BO.AddTemporaryDtors = false;
         BO.AddInitializers = true;
-        BO.PruneTriviallyFalseEdges = false;
+        BO.PruneTriviallyFalseEdges = true;
         BO.AddEHEdges = false;
         std::unique_ptr<CFG> cfg;
         if (!FD->isDependentContext()) cfg = CFG::buildCFG(FD, const_cast<Stmt *>(Body), &C, BO);
@@ -1039,7 +1039,6 @@ struct Dumper {
                     if (!first) o << ",";
                     first = false;
                     const CFGBlock *SB = SI->getReachableBlock();
-                    if (!SB) SB = SI->getPossiblyUnreachableBlock();
                     if (SB) o << SB->getBlockID();
                     else o << "null";
                 }
